@@ -534,8 +534,14 @@ func (x *Exec) load(fr *frame, addr sval, ptrT types.Type, st *State, reach stri
 			term = x.fieldGet("(select "+useSym(l.Comp)+" "+l.Obj+")", l.Path)
 		case "elem":
 			term = "(select (select " + useSym(l.Comp) + " " + l.Base + ") " + l.Idx + ")"
+			if len(l.Path) > 0 {
+				term = x.fieldGet(term, l.Path)
+			}
 		case "global":
 			term = useSym(l.Comp)
+			if len(l.Path) > 0 {
+				term = x.fieldGet(term, l.Path)
+			}
 			if x.eng.nonNilComps[l.Comp] {
 				x.assume("", "(not (= "+term+" 0))")
 				x.note("package-level error sentinels assigned once in the package initialiser are non-nil")
@@ -623,10 +629,18 @@ func (x *Exec) store(fr *frame, addr sval, ptrT types.Type, v sval, st *State, r
 
 		case "elem":
 			cur := st.get(l.Comp)
-			upd(l.Comp, "(store "+cur+" "+l.Base+" (store (select "+cur+" "+l.Base+") "+l.Idx+" "+v.t+"))")
+			nv := v.t
+			if len(l.Path) > 0 {
+				nv = x.fieldSet("(select (select "+cur+" "+l.Base+") "+l.Idx+")", l.Path, v.t)
+			}
+			upd(l.Comp, "(store "+cur+" "+l.Base+" (store (select "+cur+" "+l.Base+") "+l.Idx+" "+nv+"))")
 		case "global":
-			st.get(l.Comp)
-			n := x.define(l.Comp, x.so.comps[l.Comp], v.t)
+			cur := st.get(l.Comp)
+			nv := v.t
+			if len(l.Path) > 0 {
+				nv = x.fieldSet(cur, l.Path, v.t)
+			}
+			n := x.define(l.Comp, x.so.comps[l.Comp], nv)
 			st.set(l.Comp, n)
 		}
 		return
@@ -928,14 +942,20 @@ func (x *Exec) execBody(fr *frame, st0 *State, reach0 string) ([]sval, *State, s
 			}
 			if fr.top {
 				// call counters: whatever the body calls, the count only grows
-				for _, comp := range x.callCount {
+				for target, comp := range x.callCount {
+					if !x.loopCallsTarget(fn, ci.loopBody[b], target) {
+						continue // no such call in this loop: the count is what it was
+					}
 					prev := st.get(comp)
 					nv := x.freshConst("calls_hv", "Int")
 					x.assume("", "(>= "+nv+" "+prev+")")
 					st.set(comp, nv)
 				}
 				// allok accumulators: once false, false for good
-				for _, a := range x.accWant {
+				for target, a := range x.accWant {
+					if !x.loopCallsTarget(fn, ci.loopBody[b], target) {
+						continue
+					}
 					prev := st.get(a.comp)
 					nv := x.freshConst("allok_hv", "Bool")
 					x.assume("", "(=> "+nv+" "+prev+")")
@@ -1399,4 +1419,23 @@ func (x *Exec) havocForWrites(st *State, ws *WriteSet, why string) *State {
 	n.na = na
 	x.assumeStateInvs(n, "")
 	return n
+}
+
+// loopCallsTarget: does the loop body contain a call that matches target[@k]?
+func (x *Exec) loopCallsTarget(fn *ssa.Function, body map[*ssa.BasicBlock]bool, target string) bool {
+	for _, b := range fn.Blocks {
+		if !body[b] {
+			continue
+		}
+		for _, ins := range b.Instrs {
+			ci, ok := ins.(ssa.CallInstruction)
+			if !ok {
+				continue
+			}
+			if x.siteMatch(fn, target, callsiteName(ci.Common()), ins.Pos()) {
+				return true
+			}
+		}
+	}
+	return false
 }
